@@ -1,3 +1,160 @@
-(* C07 — placeholder until the theorems are proved: see below. *)
-From Coq Require Import List ZArith NArith Bool Arith.
-From PK Require Import PyList Episodes Stage.
+(* C07 — trajectory prediction: the statements, consolidated.  Closed by the lemmas of
+   PredictFacts.v (specifications in PredictSpec.v).  For every cell type and operations,
+   every fitted estimator f (any stage tree, either fit-time episode flag), Koopman
+   matrix coef, window length w, input sequence U and initial condition X0. *)
+From Coq Require Import List ZArith NArith Bool Arith Lia.
+From PK Require Import PyList ListFacts Episodes EpisodesFacts Stage StageFacts Helpers
+                       PredictSpec PredictList PredictFacts.
+Import ListNotations.
+Close Scope Z_scope.
+Open Scope nat_scope.
+
+(* (a) relift_state = True.  The in-place loop equals the row-by-row specification; the
+   result has one row per input sample, starts with the initial conditions verbatim, and
+   every later row is the one-step prediction from the w previously PREDICTED states and
+   the w TRUE inputs. *)
+Theorem C07_relift : forall (T : Type) (O : ops T) (f : fitted T) (coef : list (list T))
+    (w : nat) (U X0 : list (list T)),
+  length X0 = w -> w <= length U ->
+  let X := relift_loop O f coef w U X0 in
+  X = relift_spec O f coef w U X0
+  /\ length X = length U
+  /\ firstn w X = X0
+  /\ forall k, w <= k < length U ->
+       nth k X [] = relift_next O f coef (window w (k - w) X) (window w (k - w) U).
+Proof.
+  intros T O f coef w U X0 H Hle. cbn zeta. repeat split.
+  - apply relift_loop_spec; assumption.
+  - apply relift_loop_length; assumption.
+  - apply relift_loop_ic; assumption.
+  - intros k Hk. apply relift_loop_step; assumption.
+Qed.
+Print Assumptions C07_relift.
+
+(* (b) relift_state = False.  Unconditional part: array sizes, initial conditions, and
+   every lifted input.  Part under the ADDED hypothesis that lift_state returns at least
+   one row for X0 (false otherwise: PredictFacts.C07_counterexample_theta): equality
+   with the specification, Theta size, Theta[0], the exact linear recurrence
+   theta[k+1] = [theta[k], upsilon[k]] @ coef, and x[k+w] = retract(theta[k+1])[-1]. *)
+Theorem C07_norelift_partial : forall (T : Type) (O : ops T) (f : fitted T) (coef : list (list T))
+    (w : nat) (U X0 : list (list T)),
+  length X0 = w -> w <= length U ->
+  let st := norelift_loop O f coef w U X0 in
+  let m := length U - w + 1 in
+  length (nr_Ups st) = m
+  /\ length (nr_X st) = length U
+  /\ firstn w (nr_X st) = X0
+  /\ (forall k, k < m ->
+        nth k (nr_Ups st) [] =
+        last_row (lift_input O f (Some false) (hstack (window w k (nr_X st)) (window w k U))))
+  /\ (lift_state O f (Some false) X0 <> [] ->
+        st = nr_spec O f coef w U X0
+        /\ length (nr_Theta st) = m
+        /\ nth 0 (nr_Theta st) [] = hd [] (lift_state O f (Some false) X0)
+        /\ forall k, k + 1 < m ->
+             nth (k + 1) (nr_Theta st) [] =
+               kstep O f coef (nth k (nr_Theta st) []) (nth k (nr_Ups st) [])
+             /\ nth (k + w) (nr_X st) [] =
+                  last_row (retract_state O f (Some false) [nth (k + 1) (nr_Theta st) []])).
+Proof.
+  intros T O f coef w U X0 H Hle. cbn zeta.
+  destruct (@norelift_loop_sizes T O f coef w U X0 H Hle) as [H1 [H2 H3]].
+  split; [exact H2|]. split; [exact H1|]. split; [exact H3|]. split.
+  - intros k Hk. apply norelift_loop_ups; assumption.
+  - intros Hl. split; [apply norelift_loop_spec; assumption|].
+    split; [apply norelift_loop_theta_length_partial; assumption|].
+    split; [apply norelift_loop_theta0_partial; assumption|].
+    intros k Hk. apply norelift_loop_step_partial; assumption.
+Qed.
+Print Assumptions C07_norelift_partial.
+
+(* the added hypothesis follows from the natural one: the window is at least
+   min_samples long (in pykoop w IS min_samples_) *)
+Theorem C07_norelift_hyp : forall (T : Type) (O : ops T) (f : fitted T) (X0 : list (list T)),
+  min_samples (f_stage f) <= length X0 -> lift_state O f (Some false) X0 <> [].
+Proof. intros T O f X0. apply lift_state_nonempty. Qed.
+Print Assumptions C07_norelift_hyp.
+
+(* (c) what predict_ep returns in each mode; sizes; the input block is the input *)
+Theorem C07_modes : forall (T : Type) (O : ops T) (f : fitted T) (coef : list (list T))
+    (w : nat) (X0 U : list (list T)),
+  let X := relift_loop O f coef w U X0 in
+  let st := norelift_loop O f coef w U X0 in
+  predict_ep O f coef w true false false X0 U = X
+  /\ predict_ep O f coef w true false true X0 U = hstack X U
+  /\ predict_ep O f coef w true true false X0 U = lift_state O f (Some false) X
+  /\ predict_ep O f coef w true true true X0 U =
+       hstack (lift_state O f (Some false) X) (lift_input O f (Some false) (hstack X U))
+  /\ predict_ep O f coef w false false false X0 U = nr_X st
+  /\ predict_ep O f coef w false false true X0 U = hstack (nr_X st) U
+  /\ predict_ep O f coef w false true false X0 U = nr_Theta st
+  /\ predict_ep O f coef w false true true X0 U = hstack (nr_Theta st) (nr_Ups st).
+Proof. intros T O f coef w X0 U. apply predict_ep_modes. Qed.
+Print Assumptions C07_modes.
+
+Theorem C07_modes_shape : forall (T : Type) (O : ops T) (f : fitted T) (coef : list (list T))
+    (w : nat) (relift : bool) (X0 U : list (list T)),
+  length X0 = w -> w <= length U ->
+  (* one row per input sample, with or without the input block *)
+  (forall ret_input, length (predict_ep O f coef w relift false ret_input X0 U) = length U)
+  (* row k = predicted state k ++ input k, the input unchanged *)
+  /\ (forall k, k < length U ->
+        nth k (predict_ep O f coef w relift false true X0 U) [] =
+        nth k (predict_ep O f coef w relift false false X0 U) [] ++ nth k U [])
+  (* if the predicted states have width n_states_in, the blocks are recovered by slicing *)
+  /\ (wid (fst (f_dims f)) (predict_ep O f coef w relift false false X0 U) ->
+        map (skipn (fst (f_dims f))) (predict_ep O f coef w relift false true X0 U) = U
+        /\ map (firstn (fst (f_dims f))) (predict_ep O f coef w relift false true X0 U)
+           = predict_ep O f coef w relift false false X0 U)
+  (* lifted output without re-lifting: n - w + 1 rows *)
+  /\ (lift_state O f (Some false) X0 <> [] ->
+        length (predict_ep O f coef w false true false X0 U) = length U - w + 1
+        /\ length (predict_ep O f coef w false true true X0 U) = length U - w + 1).
+Proof.
+  intros T O f coef w relift X0 U H Hle.
+  split; [intros ri; apply predict_ep_length; assumption|].
+  split; [intros k Hk; apply predict_ep_input_rows; assumption|].
+  split; [intros Hw; apply predict_ep_input_passthrough; assumption|].
+  intros Hl. destruct (@predict_ep_lifted_norelift T O f coef w X0 U H Hle Hl) as [H1 [H2 _]].
+  split; assumption.
+Qed.
+Print Assumptions C07_modes_shape.
+
+(* (d) one-argument call form = two-argument call form on the projections of the same
+   matrix.  Conditions: w >= 1; when the call has an episode column, converting a label
+   to a cell and back is the identity on the labels occurring in X. *)
+Theorem C07_one_arg : forall (T : Type) (O : ops T) (f : fitted T) (coef : list (list T))
+    (w : nat) (relift ret_lifted ret_input : bool) (call : option bool) (X : list (list T)),
+  1 <= w ->
+  (eff f call = true ->
+     forall n, In n (labels (of_raw O true X)) -> op_lab O (op_inj O n) = n) ->
+  let c := eff f call in
+  let ns := fst (f_dims f) in
+  let X0 := to_raw O c (map_episodes c (fun E => map (firstn ns) (firstn w E)) (of_raw O c X)) in
+  let Uraw := to_raw O c (map_episodes c (map (skipn ns)) (of_raw O c X)) in
+  predict_trajectory O f coef w relift ret_lifted ret_input call X None
+  = predict_trajectory O f coef w relift ret_lifted ret_input call X0 (Some Uraw).
+Proof.
+  intros T O f coef w r l i call X Hw Hlab. cbn zeta.
+  apply predict_trajectory_one_arg; assumption.
+Qed.
+Print Assumptions C07_one_arg.
+
+(* ... and these projections are extract_initial_conditions / extract_input when every
+   row of X has the fit-time width *)
+Theorem C07_one_arg_extract : forall (T : Type) (O : ops T) (f : fitted T) (coef : list (list T))
+    (w : nat) (relift ret_lifted ret_input : bool) (call : option bool) (X : list (list T)),
+  1 <= w ->
+  (eff f call = true ->
+     forall n, In n (labels (of_raw O true X)) -> op_lab O (op_inj O n) = n) ->
+  dwid (fst (f_dims f) + snd (f_dims f)) (of_raw O (eff f call) X) ->
+  let c := eff f call in
+  predict_trajectory O f coef w relift ret_lifted ret_input call X None
+  = predict_trajectory O f coef w relift ret_lifted ret_input call
+      (to_raw O c (extract_ic c w (snd (f_dims f)) (of_raw O c X)))
+      (Some (to_raw O c (extract_input c (snd (f_dims f)) (of_raw O c X)))).
+Proof.
+  intros T O f coef w r l i call X Hw Hlab Hwid. cbn zeta.
+  apply predict_trajectory_extract; assumption.
+Qed.
+Print Assumptions C07_one_arg_extract.
